@@ -243,20 +243,22 @@ func fnClientList(ctx *cmdContext, args map[string]any) (output respValue, err e
 
 	var list strings.Builder
 
+	if !ctx.multi {
+		// Lock order: data store first, client table second - the order of an EXEC that runs
+		// CLIENT LIST, CLIENT KILL or CLIENT UNBLOCK (EXEC already owns the data store). Taking
+		// the data store per client inside processAllClients is the opposite order and
+		// deadlocks against such a transaction.
+		ctx.dsc.acquireExclusive()
+		defer ctx.dsc.releaseExclusive()
+	}
+
 	processAllClients(ctx.cs.dss, func(id int64, cs *clientState) {
 		included := true
 		if len(ids) > 0 {
 			_, included = ids[cs.id]
 		}
 		if included {
-			var info string
-			if ctx.multi {
-				// EXEC already owns the data store
-				info = ctx.infoUnlocked(cs)
-			} else {
-				info = ctx.info(cs)
-			}
-			list.WriteString(info)
+			list.WriteString(ctx.infoUnlocked(cs))
 		}
 	})
 
